@@ -641,6 +641,13 @@ def main(tier, pid='C01'):
     for c in cfgs:
         c['_timeout_ms'] = 10000 if tier == 'quick' else 60000
     results = common.run_jobs('vp.checks.c01', 'job', cfgs)
+    # configurations with undecided obligations are re-run once, few at a time and with a three-fold solver budget:
+    # under a fully loaded pool solver time doubles and borderline queries time out
+    redo = [i for i, r in enumerate(results) if r['ok'] and r['res']['unknown'] and not r['res']['sat']]
+    if redo:
+        again = [dict(results[i]['cfg'], _timeout_ms=3*results[i]['cfg']['_timeout_ms']) for i in redo]
+        for i, r2 in zip(redo, common.run_jobs('vp.checks.c01', 'job', again)):
+            if r2['ok'] and len(r2['res']['unknown']) < len(results[i]['res']['unknown']): results[i] = r2
     known = common.known_findings(pid)
     violations, known_hits, herr, inconc = [], [], [], []
     paths = 0; statuses = {}; reach = {}; seen = {}; job_walls = []
